@@ -82,9 +82,12 @@ Definition halgo_ok (h : halgo) : bool :=
 Record hfam := {
   hf_algo : string;
   hf_fam : string;
-  hf_free : list nat;        (* initial free-lane stack decoded from unused_lanes; [] = no lane manager *)
+  hf_free : list nat;        (* initial free-lane stack read back from unused_lanes after EXECUTING the
+                                family's init function; [] = no lane manager *)
   hf_sync : bool;            (* base / single-buffer: every submit hands its own context back *)
-  hf_sb_threshold : nat      (* *_SB_THRESHOLD_* of <algo>_job.asm used by this family's flush (0 = none) *)
+  hf_understood : bool;      (* false: the bytes init left in unused_lanes are not a stack of lane indices
+                                (the translator does not guess: the checks then use MAX_LANES as the bound) *)
+  hf_sb_threshold : nat      (* *_SB_THRESHOLD_* of <algo>_job.asm (informational: nothing depends on it) *)
 }.
 
 Definition hf_lanes (f : hfam) : nat := List.length (hf_free f).
@@ -98,10 +101,10 @@ Definition hfam_ok (algos : list halgo) (f : hfam) : bool :=
   match find (fun h => String.eqb (ha_name h) (hf_algo f)) algos with
   | None => false
   | Some h =>
-      (nodupb (hf_free f) && forallb (fun l => (l <? hf_lanes f)%nat) (hf_free f) &&
+      (hf_understood f &&
+       nodupb (hf_free f) && forallb (fun l => (l <? hf_lanes f)%nat) (hf_free f) &&
        (hf_lanes f <=? ha_max_lanes h)%nat &&
-       (if hf_sync f then (hf_lanes f =? 0)%nat else (2 <=? hf_lanes f)%nat) &&
-       (hf_sb_threshold f <=? hf_lanes f)%nat)%bool
+       (if hf_sync f then (hf_lanes f =? 0)%nat else (2 <=? hf_lanes f)%nat))%bool
   end.
 
 (* the (algorithm, family) pairs of the release this development was written against; a
